@@ -409,3 +409,93 @@ Proof.
   intros id Hid. apply existsb_exists. exists id. split; [apply Hincl, Hid|apply N.eqb_refl].
 Qed.
 End Forced.
+
+(* ---------- all schedules: without new input the loop cannot run for ever, and it can only stop when everything is answered ---------- *)
+Section Termination.
+Variable body : msg -> list N.
+Notation enc := (enc body).
+Notation dstepm := (dstepm body).
+
+Definition Lr (id : N) : nat := length (enc (MReply id)).
+Definition Ll (k : N) : nat := length (enc (MLog k)).
+Definition sumf (f : N -> nat) (w : nat) (l : list N) : nat := fold_right (fun x acc => w + f x + acc)%nat 0%nat l.
+
+(* potential: every message still to be written weighs its stage plus the bytes it still has to put on the wire *)
+Definition pot (s : dst) : nat :=
+  (sumf Lr 6 (d_inq s) + sumf Lr 5 (d_pending s) + sumf Lr 4 (d_chan s) + sumf Lr 3 (opt_list (d_hold s))
+   + sumf Ll 4 (d_logq s) + sumf Ll 3 (opt_list (d_lhold s))
+   + match d_lock s with None => 0 | Some (_, _, rest) => 2 + length rest end)%nat.
+
+Lemma sumf_app f w a b : sumf f w (a ++ b) = (sumf f w a + sumf f w b)%nat.
+Proof. induction a as [|x a IH]; cbn [sumf fold_right app]; [reflexivity|]. fold (sumf f w (a ++ b)). fold (sumf f w a). rewrite IH. lia. Qed.
+
+Lemma sumf_remove1 f w id l : existsb (N.eqb id) l = true -> sumf f w l = (w + f id + sumf f w (remove1 id l))%nat.
+Proof.
+  induction l as [|y l IH]; cbn [existsb remove1]; [discriminate|]. intros H.
+  destruct (N.eqb_spec y id) as [->|Hne]; [reflexivity|].
+  destruct (N.eqb_spec id y) as [->|_]; [congruence|]. cbn [orb] in H.
+  cbn [sumf fold_right]. fold (sumf f w l). fold (sumf f w (remove1 id l)). rewrite (IH H). lia.
+Qed.
+
+Definition effective (s : dst) (e : dev) : Prop := dstepm s e <> s.
+
+(* every state-changing step other than a new request or log line strictly lowers the potential *)
+Lemma effective_step_decreases s e : is_input e = false -> effective s e -> (pot (dstepm s e) < pot s)%nat.
+Proof.
+  unfold effective. intros Hi He. destruct e as [id| |id| |k| |w|n|]; try discriminate; cbn [Driver.dstepm] in *.
+  - (* VDispatch *)
+    destruct (d_inq s) as [|id r] eqn:Ei; [congruence|]. destruct (driver_idle s); [|congruence].
+    unfold pot. cbn [d_inq d_pending d_chan d_hold d_logq d_lhold d_lock]. rewrite Ei, sumf_app. cbn [sumf fold_right]. fold (sumf Lr 6 r). lia.
+  - (* VComplete *)
+    destruct (existsb (N.eqb id) (d_pending s)) eqn:Ee; [|congruence].
+    unfold pot. cbn [d_inq d_pending d_chan d_hold d_logq d_lhold d_lock]. rewrite (sumf_remove1 Lr 5 id _ Ee), sumf_app. cbn [sumf fold_right]. lia.
+  - (* VRecv *)
+    destruct (d_chan s) as [|v r] eqn:Ec; [congruence|]. destruct (driver_idle s) eqn:Ed; [|congruence].
+    assert (Hh : d_hold s = None) by (unfold driver_idle in Ed; destruct (d_hold s); [discriminate|reflexivity]).
+    unfold pot. cbn [d_inq d_pending d_chan d_hold d_logq d_lhold d_lock opt_list]. rewrite Ec, Hh. cbn [sumf fold_right opt_list]. fold (sumf Lr 4 r). lia.
+  - (* VLogRecv *)
+    destruct (lock_owner s) as [[|]|] eqn:Eo; destruct (d_logq s) as [|k r] eqn:Eq; destruct (d_lhold s) as [k'|] eqn:Eh; try congruence.
+    all: unfold pot; cbn [d_inq d_pending d_chan d_hold d_logq d_lhold d_lock opt_list]; rewrite ?Eq, ?Eh; cbn [sumf fold_right opt_list]; fold (sumf Ll 4 r); lia.
+  - (* VAcquire *)
+    destruct w.
+    + destruct (d_lock s) as [[[w m] rest]|] eqn:El; [congruence|]. destruct (d_hold s) as [v|] eqn:Eh; [|congruence].
+      unfold pot. cbn [d_inq d_pending d_chan d_hold d_logq d_lhold d_lock opt_list]. rewrite El, Eh. cbn [sumf fold_right opt_list]. unfold Lr. lia.
+    + destruct (d_lock s) as [[[w m] rest]|] eqn:El; [congruence|]. destruct (d_lhold s) as [v|] eqn:Eh; [|congruence].
+      unfold pot. cbn [d_inq d_pending d_chan d_hold d_logq d_lhold d_lock opt_list]. rewrite El, Eh. cbn [sumf fold_right opt_list]. unfold Ll. lia.
+  - (* VWrite *)
+    destruct (d_lock s) as [[[w m] [|x rest]]|] eqn:El; try congruence.
+    destruct n as [|n].
+    + (* nothing accepted: the state does not change *)
+      exfalso. apply He. cbn [firstn skipn]. rewrite app_nil_r. destruct s; cbn in *. subst. reflexivity.
+    + unfold pot. cbn [d_inq d_pending d_chan d_hold d_logq d_lhold d_lock]. rewrite El.
+      pose proof (skipn_length (S n) (x :: rest)) as Hl. cbn [length] in Hl. cbn [length]. lia.
+  - (* VRelease *)
+    destruct (d_lock s) as [[[w m] [|x rest]]|] eqn:El; try congruence.
+    unfold pot. cbn [set_lock d_inq d_pending d_chan d_hold d_logq d_lhold d_lock]. rewrite El. cbn [length]. lia.
+Qed.
+
+(* a run in which every step changes the state and nothing new arrives is at most [pot s] steps long: the loop, the handlers'
+   replies and the writers cannot go on for ever *)
+Theorem driver_effective_runs_are_bounded evs : forall s,
+  forallb (fun e => negb (is_input e)) evs = true ->
+  (forall k e, nth_error evs k = Some e -> effective (Driver.drun body (firstn k evs) s) e) ->
+  (length evs <= pot s)%nat.
+Proof.
+  induction evs as [|e evs IH]; intros s Hni Heff; [cbn; lia|].
+  cbn [forallb] in Hni. apply andb_prop in Hni as [He Hni]. apply negb_true_iff in He.
+  pose proof (Heff 0%nat e eq_refl) as H0. cbn [firstn Driver.drun fold_left] in H0.
+  pose proof (effective_step_decreases s e He H0) as Hd.
+  assert (Hrest : (length evs <= pot (dstepm s e))%nat).
+  { apply IH; [exact Hni|]. intros k e' Hk. specialize (Heff (S k) e' Hk). cbn [firstn Driver.drun fold_left] in Heff. exact Heff. }
+  cbn [length]. lia.
+Qed.
+
+(* and it can stop only when everything is answered: if no step (other than new input) changes the state, nothing is in flight *)
+Theorem driver_stuck_only_when_quiescent s :
+  (forall e, is_input e = false -> ~ effective s e) -> quiescent s = true.
+Proof.
+  intros H. destruct (next_ev s) as [e|] eqn:En; [|apply next_ev_none, En].
+  exfalso. apply (H e (next_ev_not_input s e En)). unfold effective. intros Heq.
+  pose proof (next_ev_progress body s e En) as Hp. rewrite Heq in Hp. lia.
+Qed.
+End Termination.
